@@ -132,6 +132,8 @@ structure Inv (g : Graph Tid) (s : State Tid) : Prop where
   forcedSkip : ∀ t m, s.forced t = true → s.mode t = some m → m = .skip
   /-- no decision is recorded before a worker picks the task -/
   modeNone : ∀ t, (s.phase t = .remaining ∨ s.phase t = .queued) → s.mode t = none
+  /-- a task finishes after it started; nothing finishes before being picked by a worker -/
+  finishAfterStart : ∀ t j, s.finishAt t = some j → ∃ i, s.startAt t = some i ∧ i < j
 
 theorem succDeps_sub_deps (g : Graph Tid) (t d : Tid) (h : d ∈ g.succDeps t) : d ∈ g.deps t := by
   unfold Graph.deps; exact List.mem_append.mpr (Or.inr h)
@@ -212,6 +214,7 @@ theorem inv_dispatch (g : Graph Tid) (n : Nat) (s : State Tid) (hab : s.aborted 
     by_cases hr : s.phase t = .remaining
     · exact h.modeNone t (Or.inl hr)
     · rw [hsame t hr] at ht; exact h.modeNone t ht
+  · intro t j hj; simp only [dispatch_finishAt, dispatch_startAt] at *; exact h.finishAfterStart t j hj
 
 theorem inv_init (g : Graph Tid) (n : Nat) : Inv g (init g n) :=
   inv_dispatch g n empty rfl (inv_empty g)
@@ -326,6 +329,16 @@ theorem inv_step (g : Graph Tid) (n : Nat) (s s' : State Tid) (l : Label Tid) (h
       by_cases e : x = t
       · simp [e] at hx
       · simp only [e, if_false] at hx ⊢; exact h.modeNone x hx
+    · intro x j hj
+      by_cases e : x = t
+      · subst e
+        -- a queued task has not finished: finishAt x = some j would give startAt x = some _
+        obtain ⟨i, hi, _⟩ := h.finishAfterStart x j hj
+        have := h.startAtSome x
+        rw [hq, hi] at this
+        simp [Phase.rank] at this
+      · obtain ⟨i, hi, hlt⟩ := h.finishAfterStart x j hj
+        exact ⟨i, by simp only [e, if_false]; exact hi, hlt⟩
   | finish t r =>
     obtain ⟨htm, hq, ⟨m, hm, hra⟩, rfl⟩ := step_finish hs
     have hph : ∀ x, x ≠ t → (if x = t then Phase.done else s.phase x) = s.phase x := by
@@ -388,6 +401,16 @@ theorem inv_step (g : Graph Tid) (n : Nat) (s s' : State Tid) (l : Label Tid) (h
       by_cases e : x = t
       · simp [e] at hx
       · simp only [e, if_false] at hx; exact h.modeNone x hx
+    · intro x j hj
+      by_cases e : x = t
+      · subst e
+        simp only [if_true] at hj; injection hj with hj; subst hj
+        have := h.startAtSome x
+        rw [hq] at this
+        cases hsa : s.startAt x with
+        | none => rw [hsa] at this; simp [Phase.rank] at this
+        | some i => exact ⟨i, rfl, h.startLt x i hsa⟩
+      · simp only [e, if_false] at hj; exact h.finishAfterStart x j hj
   | receive t =>
     obtain ⟨htm, hq, rfl⟩ := step_receive hs
     -- the state before the (possible) dispatch
@@ -457,6 +480,7 @@ theorem inv_step (g : Graph Tid) (n : Nat) (s s' : State Tid) (l : Label Tid) (h
         by_cases e : x = t
         · simp [e] at hx
         · simp only [e, if_false] at hx; exact h.modeNone x hx
+      · exact h.finishAfterStart
     split
     · exact h1
     · rename_i hab
@@ -535,5 +559,6 @@ theorem inv_step (g : Graph Tid) (n : Nat) (s s' : State Tid) (l : Label Tid) (h
         rcases hx with hx | hx
         · exact hx.elim
         · exact h.modeNone x (Or.inr hx)
+    · exact h.finishAfterStart
 
 end LccModel.Sched
